@@ -14,6 +14,14 @@ static LIVE: AtomicUsize = AtomicUsize::new(0);
 static PEAK: AtomicUsize = AtomicUsize::new(0);
 static TOTAL: AtomicUsize = AtomicUsize::new(0);
 static NET: AtomicIsize = AtomicIsize::new(0);
+// requests as the crate's code makes them: a fresh allocation of `size` bytes, or a reallocation
+// growing a block by `new - old` bytes (`Vec::reserve_exact` on a non-empty vector). Requests of
+// exactly `SKIP_SIZE` bytes (the boxed `Error` of a chained error) are tallied separately.
+static REQ_N: AtomicUsize = AtomicUsize::new(0);
+static REQ_TOTAL: AtomicUsize = AtomicUsize::new(0);
+static REQ_MAX: AtomicUsize = AtomicUsize::new(0);
+static SKIP_SIZE: AtomicUsize = AtomicUsize::new(0);
+static SKIP_N: AtomicUsize = AtomicUsize::new(0);
 pub const HARD_CAP: usize = 1 << 31;
 
 fn on_alloc(size: usize) {
@@ -23,6 +31,17 @@ fn on_alloc(size: usize) {
 		TOTAL.fetch_add(size, SeqCst);
 		let live = LIVE.fetch_add(size, SeqCst) + size;
 		PEAK.fetch_max(live, SeqCst);
+	}
+}
+fn on_request(growth: usize) {
+	if ARMED.load(SeqCst) && growth > 0 {
+		if growth == SKIP_SIZE.load(SeqCst) {
+			SKIP_N.fetch_add(1, SeqCst);
+		} else {
+			REQ_N.fetch_add(1, SeqCst);
+			REQ_TOTAL.fetch_add(growth, SeqCst);
+			REQ_MAX.fetch_max(growth, SeqCst);
+		}
 	}
 }
 fn on_free(size: usize) {
@@ -38,6 +57,7 @@ unsafe impl GlobalAlloc for Counting {
 			return core::ptr::null_mut();
 		}
 		on_alloc(layout.size());
+		on_request(layout.size());
 		System.alloc(layout)
 	}
 	unsafe fn dealloc(&self, ptr: *mut u8, layout: Layout) {
@@ -50,6 +70,7 @@ unsafe impl GlobalAlloc for Counting {
 		}
 		// a realloc may keep the old and the new block alive at once
 		on_alloc(new_size);
+		on_request(new_size.saturating_sub(layout.size()));
 		let p = System.realloc(ptr, layout, new_size);
 		on_free(layout.size());
 		p
@@ -60,6 +81,13 @@ pub struct Measure {
 	pub max_request: usize,
 	pub peak_live: usize,
 	pub total: usize,
+	/// requests (fresh allocations and growths) other than those of exactly the skip size
+	pub req_n: usize,
+	pub req_total: usize,
+	pub req_max: usize,
+	/// requests of exactly the skip size
+	pub skipped_n: usize,
+	pub skip_size: usize,
 }
 
 pub fn measure<R>(f: impl FnOnce() -> R) -> (R, Measure) {
@@ -67,10 +95,31 @@ pub fn measure<R>(f: impl FnOnce() -> R) -> (R, Measure) {
 	LIVE.store(0, SeqCst);
 	PEAK.store(0, SeqCst);
 	TOTAL.store(0, SeqCst);
+	REQ_N.store(0, SeqCst);
+	REQ_TOTAL.store(0, SeqCst);
+	REQ_MAX.store(0, SeqCst);
+	SKIP_N.store(0, SeqCst);
 	ARMED.store(true, SeqCst);
 	let r = f();
 	ARMED.store(false, SeqCst);
-	(r, Measure { max_request: MAX_REQ.load(SeqCst), peak_live: PEAK.load(SeqCst), total: TOTAL.load(SeqCst) })
+	(
+		r,
+		Measure {
+			max_request: MAX_REQ.load(SeqCst),
+			peak_live: PEAK.load(SeqCst),
+			total: TOTAL.load(SeqCst),
+			req_n: REQ_N.load(SeqCst),
+			req_total: REQ_TOTAL.load(SeqCst),
+			req_max: REQ_MAX.load(SeqCst),
+			skipped_n: SKIP_N.load(SeqCst),
+			skip_size: SKIP_SIZE.load(SeqCst),
+		},
+	)
+}
+
+/// Requests of exactly `size` bytes are tallied apart from the others (0: none are).
+pub fn set_skip_size(size: usize) {
+	SKIP_SIZE.store(size, SeqCst);
 }
 
 /// Bytes allocated minus bytes freed while `f` ran (C10: anything `f` allocated and did not free).
